@@ -23,7 +23,8 @@ t=$(/venv/bin/python -m pytest -q -p no:cacheprovider --timeout=900 --continue-o
 echo "seed=$NAME demo_without=$d0 demo_with=$d1 tests: $t"
 (cd /repo && git ls-files -z | xargs -0 cp --parents -t "$TMP/head")
 cd "$TMP/head"
-if ! patch -p1 -s --no-backup-if-mismatch < "$SRC/patch.diff"; then echo "seed=$NAME PATCH-FAILED-ON-HEAD (adapt by hand)"; exit 4; fi
+HP="$SRC/patch.diff"; [ -f "$SRC/patch_for_head.diff" ] && HP="$SRC/patch_for_head.diff"
+if ! patch -p1 -s --no-backup-if-mismatch < "$HP"; then echo "seed=$NAME PATCH-FAILED-ON-HEAD (adapt by hand)"; exit 4; fi
 for ID in "$@"; do
   VERIF_REPO="$TMP/head" VERIF_OUT="$TMP/out" /verif/run "$ID" --tier "$TIER" > "$TMP/out/$ID.log" 2>&1
   rc=$?
